@@ -4,6 +4,9 @@
 package chain
 
 import (
+	"github.com/ucan-wg/go-ucan/did"
+	varint "github.com/multiformats/go-varint"
+	mbase "github.com/multiformats/go-multibase"
 	mh "github.com/multiformats/go-multihash"
 	"crypto/sha256"
 	"encoding/json"
@@ -161,7 +164,46 @@ const NPrincipals = 8
 // NPrincipalsMixed includes five principals with other key algorithms (indexes 8..12).
 const NPrincipalsMixed = 13
 
+// Near-twins: Prin(100*t + i), t = 1..3, is a principal NOBODY holds a key for, whose did:key differs from that of
+// Prin(i) in one respect only: (1) the same key bytes announced under another key algorithm's multicodec, (2) the
+// same algorithm with one more key byte, (3) with the last key byte missing. did.Parse accepts all of them. They can
+// stand wherever no signature is needed (audience of a link, subject of a link or of the invocation) and are
+// DIFFERENT principals there: a comparison that looks at part of an identifier confuses them with the real one.
+func nearTwin(i int) *keys.Key {
+	t, base := i/100, Prin(i%100)
+	_, raw, err := mbase.Decode(base.DID.String()[len("did:key:"):])
+	if err != nil {
+		panic(err)
+	}
+	code, n, err := varint.FromUvarint(raw)
+	if err != nil {
+		panic(err)
+	}
+	key := append([]byte{}, raw[n:]...)
+	switch t {
+	case 1:
+		next := map[uint64]uint64{0xed: 0xe7, 0xe7: 0x1200, 0x1200: 0xe7, 0x1201: 0x1202, 0x1202: 0x1201, 0x1205: 0xed}
+		code = next[code]
+	case 2:
+		key = append(key, 0x00)
+	default:
+		key = key[:len(key)-1]
+	}
+	enc, err := mbase.Encode(mbase.Base58BTC, append(varint.ToUvarint(code), key...))
+	if err != nil {
+		panic(err)
+	}
+	d, err := did.Parse("did:key:" + enc)
+	if err != nil {
+		panic(fmt.Sprintf("near twin %d of %s does not parse: %v", t, base.DID, err))
+	}
+	return &keys.Key{Alg: base.Alg, Idx: -i, DID: d}
+}
+
 func Prin(i int) *keys.Key {
+	if i >= 100 {
+		return nearTwin(i)
+	}
 	switch i {
 	case 8:
 		return keys.Get(keys.Secp256k1, 0)
